@@ -1,9 +1,14 @@
 package gen
 
 import (
+	"bytes"
 	"image"
 	"image/color"
+	"image/jpeg"
 	"math"
+	"os"
+	"path/filepath"
+	"sync"
 
 	"verif/harness/internal/core"
 )
@@ -14,8 +19,68 @@ type ImgSpec struct {
 	W, H    int
 	OX, OY  int    // rectangle origin
 	Sub     bool   // SubImage of a larger image (stride > width)
-	Content string // "gradient","noise","constant","checker","pixel","extreme","photo"
+	Content string // "gradient","noise","constant","checker","pixel","extreme","photo","asset"
+	Alpha   bool   // nrgba only: varying alpha below 255
 }
+
+var (
+	assetOnce sync.Once
+	assetImgs []image.Image
+)
+
+// assets decodes the repository's sample photographs once (standard library decoder).
+func assets() []image.Image {
+	assetOnce.Do(func() {
+		for _, n := range []string{"JPEG.jpg", "a1.jpg", "a2.jpg", "NoExif.jpg"} {
+			b, err := os.ReadFile(filepath.Join(RepoDir(), "assets", n))
+			if err != nil {
+				continue
+			}
+			if img, err := jpeg.Decode(bytes.NewReader(b)); err == nil {
+				assetImgs = append(assetImgs, img)
+			}
+		}
+	})
+	return assetImgs
+}
+
+// boxResize is the harness's own box filter: the photograph is cut to a centred square and
+// every target pixel is the mean of its source box.
+func boxResize(src image.Image, w, h int) [][3]uint8 {
+	b := src.Bounds()
+	side := b.Dx()
+	if b.Dy() < side {
+		side = b.Dy()
+	}
+	x0, y0 := b.Min.X+(b.Dx()-side)/2, b.Min.Y+(b.Dy()-side)/2
+	out := make([][3]uint8, w*h)
+	for y := 0; y < h; y++ {
+		for x := 0; x < w; x++ {
+			sx0, sx1 := x0+x*side/w, x0+(x+1)*side/w
+			sy0, sy1 := y0+y*side/h, y0+(y+1)*side/h
+			if sx1 <= sx0 {
+				sx1 = sx0 + 1
+			}
+			if sy1 <= sy0 {
+				sy1 = sy0 + 1
+			}
+			var sr, sg, sb, n uint64
+			for yy := sy0; yy < sy1; yy++ {
+				for xx := sx0; xx < sx1; xx++ {
+					r, g, bb, _ := src.At(xx, yy).RGBA()
+					sr, sg, sb, n = sr+uint64(r>>8), sg+uint64(g>>8), sb+uint64(bb>>8), n+1
+				}
+			}
+			out[y*w+x] = [3]uint8{uint8(sr / n), uint8(sg / n), uint8(sb / n)}
+		}
+	}
+	return out
+}
+
+var (
+	resizedMu sync.Mutex
+	resized   = map[[3]int][][3]uint8{}
+)
 
 func (s ImgSpec) String() string {
 	return s.Kind + "/" + s.Content
@@ -58,6 +123,21 @@ func contentFn(r *core.Rng, s ImgSpec) func(x, y int) (uint8, uint8, uint8) {
 			h := core.NewRng(seed, uint64(x), uint64(y)).U64()
 			return uint8(h), uint8(h >> 8), uint8(h >> 16)
 		}
+	case "asset":
+		as := assets()
+		if len(as) == 0 || s.W <= 0 || s.H <= 0 {
+			return func(x, y int) (uint8, uint8, uint8) { return 128, 128, 128 }
+		}
+		k := r.Intn(len(as))
+		key := [3]int{k, s.W, s.H}
+		resizedMu.Lock()
+		px, ok := resized[key]
+		if !ok {
+			px = boxResize(as[k], s.W, s.H)
+			resized[key] = px
+		}
+		resizedMu.Unlock()
+		return func(x, y int) (uint8, uint8, uint8) { p := px[y*s.W+x]; return p[0], p[1], p[2] }
 	case "photo": // smooth low-frequency content plus mild noise, like a resized photograph
 		fx, fy := r.Float()*3+0.3, r.Float()*3+0.3
 		ph1, ph2 := r.Float()*6, r.Float()*6
@@ -156,7 +236,11 @@ func MakeImage(r *core.Rng, s ImgSpec) image.Image {
 				case "gray", "paletted":
 					img.Set(s.OX+x, s.OY+y, color.Gray{cr})
 				case "nrgba":
-					img.Set(s.OX+x, s.OY+y, color.NRGBA{cr, cg, cb, 255})
+					a := uint8(255)
+					if s.Alpha {
+						a = uint8(96 + core.NewRng(0x5eed, uint64(x), uint64(y)).Intn(160))
+					}
+					img.Set(s.OX+x, s.OY+y, color.NRGBA{cr, cg, cb, a})
 				default:
 					img.Set(s.OX+x, s.OY+y, color.RGBA{cr, cg, cb, 255})
 				}
